@@ -25,6 +25,9 @@ PROPS = {
                 n_l1=(200, 4000), n_l2=(60, 2000)),
 }
 
+PROPS["C07"] = dict(l1_ops=["hat", "vee", "generator", "innerWeights", "bracket", "inner", "sqwnorm", "wnorm"],
+                    l2="C07", n_l1=(400, 6000), n_l2=(80, 2000))
+
 LEVEL = collections.defaultdict(lambda: "proof")
 
 
